@@ -595,3 +595,8 @@ def _uninterp(e, st, args, kw, n):
         raise Unsupported('elementwise transcendental on an array')
     name = 'UF_' + (n.func.attr if isinstance(n.func, ast.Attribute) else getattr(n.func, 'id', 'f'))
     return SV(z3.Function(name, z3.RealSort(), z3.RealSort())(simp(v.t)), 'real')
+
+
+@builtin('numba.typed.Dict.empty')
+def _typed_dict_empty(e, st, args, kw, n):
+    return {}
